@@ -188,6 +188,75 @@ def instances(hyps, terms, depth=3):
     return out
 
 
+def wf_instances(quant, ground):
+    """pattern-directed instantiation of the heap well-formedness facts (forall r[,k]: 0 <= A[r][k] < bound): one instance per
+    ground occurrence of A[t] / A[t][u] in the quantifier-free part"""
+    out = []
+    wfs = []
+    for h in quant:
+        if z3.is_quantifier(h) and h.is_forall() and h.var_name(0) == "r!wf":
+            body = h.body()
+            # body = And(A[r][k] >= 0, A[r][k] < bound): find the array constant A
+            arrs = collect_terms_q(body, lambda t: z3.is_const(t) and isinstance(t.sort(), z3.ArraySortRef) and t.decl().kind() == z3.Z3_OP_UNINTERPRETED)
+            if arrs:
+                wfs.append((h, arrs[0]))
+    if not wfs:
+        return out
+    sels = collect_terms(ground, lambda t: z3.is_app(t) and t.decl().kind() == z3.Z3_OP_SELECT)
+    seen = set()
+    # element indices that occur anywhere (reads through store/ite chains are not syntactically A[r][k])
+    kterms, kids = [], set()
+    for t in sels:
+        u = t.arg(1)
+        if u.sort() == I and u.get_id() not in kids and not isinstance(t.arg(0).sort().range(), z3.ArraySortRef):
+            kids.add(u.get_id())
+            kterms.append(u)
+    kterms.sort(key=lambda t: len(t.sexpr()))
+    kterms = kterms[:6]
+    for h, arr in wfs:
+        nv = h.num_vars()
+        if nv == 2:
+            rs, rids = [], set()
+            for t in sels:
+                if z3.eq(t.arg(0), arr) and t.arg(1).get_id() not in rids:
+                    rids.add(t.arg(1).get_id())
+                    rs.append(t.arg(1))
+            for r in rs[:4]:
+                for k in kterms:
+                    if k.sort() != h.var_sort(1):
+                        continue
+                    inst = z3.substitute_vars(h.body(), k, r)
+                    if inst.get_id() not in seen:
+                        seen.add(inst.get_id())
+                        out.append(inst)
+        for t in sels:
+            inst = None
+            if nv == 1 and z3.eq(t.arg(0), arr):
+                inst = z3.substitute_vars(h.body(), t.arg(1))
+            elif nv == 2 and z3.is_app(t.arg(0)) and t.arg(0).decl().kind() == z3.Z3_OP_SELECT and z3.eq(t.arg(0).arg(0), arr):
+                inst = z3.substitute_vars(h.body(), t.arg(1), t.arg(0).arg(1))
+            if inst is not None and inst.get_id() not in seen:
+                seen.add(inst.get_id())
+                out.append(inst)
+    return out
+
+
+def collect_terms_q(f, pred):
+    out, seen, stack = [], set(), [f]
+    while stack:
+        x = stack.pop()
+        if x.get_id() in seen:
+            continue
+        seen.add(x.get_id())
+        if z3.is_quantifier(x):
+            stack.append(x.body())
+            continue
+        if pred(x):
+            out.append(x)
+        stack.extend(x.children())
+    return out
+
+
 def strip_q(fs):
     out = []
     for h in fs:
@@ -274,6 +343,7 @@ def build_stages(pc2, g, sk, idx, hints, float_mode):
             terms.append(t)
     inst = instances(quant, terms) if quant else []
     inst_qf = strip_q(inst)
+    inst_qf += wf_instances(quant, qf + inst_qf + [g])
     neg = z3.Not(g)
     base = qf + inst_qf + list(hints)
     th = theory_axioms(base + [neg], float_mode)
